@@ -5,5 +5,6 @@ CONSTANTS
 INVARIANTS
   P_C17_OrderFree
   P_C17_Reject
+  P_C17_Foreign
   Emit
 CHECK_DEADLOCK FALSE
